@@ -3,7 +3,7 @@
    criteria [cs] and in-memory id counters [a]; the shipped criteria are the definitions
    regenerated from gffutils/merge_criteria.py on every run (Gen/GenCriteria.v). *)
 From GV Require Import Base.Prelude Base.PyStr Model.Bins Model.DB Model.Parser Model.Query Model.Import Model.Merge
-  Gen.GenLib Gen.GenCriteria Proofs.C16Proofs.
+  Gen.GenLib Gen.GenCriteria Proofs.C16Proofs Proofs.C16Union.
 Open Scope Z_scope.
 
 (* every input is yielded unchanged (no children) or is a child of exactly one merged output, in
@@ -42,3 +42,20 @@ Theorem C16_default_maximal_runs : forall sK tK fK, ~ In COMMAc sK -> forall fs 
   sep (fst (merge default_criteria fs a)) /\ Forall out_covered (fst (merge default_criteria fs a)).
 Proof. exact l_default_maximal_runs. Qed.
 Print Assumptions C16_default_maximal_runs.
+
+(* children_bp: without merging, the summed child lengths ... *)
+Theorem C16_children_bp_sum : forall cs kids,
+  children_bp false cs kids = fold_right Z.add 0 (map (fun k => m_end (mi_v k) - m_start (mi_v k) + 1) kids).
+Proof. reflexivity. Qed.
+Print Assumptions C16_children_bp_sum.
+
+(* ... and with merge=True (default criteria, start-ordered children of one seqid/strand/featuretype, which is what
+   children(order_by="start") of one featuretype under one parent yields): the size of their union, i.e. the number of
+   integer positions covered by at least one child, counted over any window [lo, hi) that contains all of them *)
+Theorem C16_children_bp_union : forall sK tK fK, ~ In COMMAc sK -> forall kids lo hi,
+  (forall f, In f kids -> okf sK tK fK f) ->
+  (match kids with [] => True | f :: _ => sorted_from (m_start (mi_v f)) kids end) ->
+  (forall f, In f kids -> lo <= m_start (mi_v f) /\ m_end (mi_v f) < hi) -> lo <= hi ->
+  children_bp true default_criteria kids = zcount (in_kids kids) lo hi.
+Proof. exact l_children_bp_union. Qed.
+Print Assumptions C16_children_bp_union.
